@@ -465,6 +465,29 @@ theorem skolemize_example :
   decide
 
 
+
+/-- where the new quads go: into the graph parsed into, or into a graph the document itself names (an IRI, or one of
+    its labels under the same assignment) — no third graph of the dataset is touched -/
+def Statement_new_quads_in_target_or_named_graph : Prop :=
+  ∀ (p : Parser) (c : CallOpts) (d : DS) (m0 : LMap) (f0 : Nat) (into : T) (doc : Doc), MapInv f0 ⟨d.fresh, m0⟩ →
+    ∃ σ : Lbl → Nat, ∀ q, q ∈ (parseWith p c d m0 into doc).1.quads → q ∈ d.quads ∨ q.2.2.2 = into ∨
+      ∃ dq ∈ doc, ∃ g, dq.2.2.2 = some g ∧ q.2.2.2 = trenO (loptsOf p c) σ g
+
+theorem new_quads_in_target_or_named_graph : Statement_new_quads_in_target_or_named_graph := by
+  intro p c d m0 f0 into doc hm
+  rw [parseWith_eq]
+  obtain ⟨_, hq, _, _, _, _⟩ := parseO_facts (loptsOf p c) d m0 into doc hm
+  refine ⟨sigma (loptsOf p c).pol (parseO (loptsOf p c) d m0 into doc).2, fun q h => ?_⟩
+  rcases (hq q).mp h with h | h
+  · exact Or.inl h
+  · simp only [renameO] at h
+    obtain ⟨dq, hdq, rfl⟩ := List.mem_map.mp h
+    have hdoc : dq ∈ doc := (List.mem_filter.mp hdq).1
+    obtain ⟨a, b, c', g⟩ := dq
+    cases g with
+    | none => exact Or.inr (Or.inl rfl)
+    | some t => exact Or.inr (Or.inr ⟨_, hdoc, t, rfl, rfl⟩)
+
 /-! ### Round g — Notation3 / Turtle / TriG: `_:x` scoping with formulae (`Parsers.n3Run`) -/
 
 /-- The N3-family parser as coded — a *stack* of `_anonymousNodes` dicts, pushed and emptied at `{`, popped at `}`,
@@ -539,5 +562,51 @@ example :
   · intro b hb; cases hb; decide
   · exact ⟨_, List.mem_cons_self, Or.inl rfl⟩
   · exact ⟨_, List.mem_cons_self, Or.inl rfl⟩
+
+/-- round g: the hypotheses of `caller_shared_context_shares_exactly` are met by a target with content and a dict the
+    caller filled with an existing node (`_:b0` ↦ node 3): the two documents then talk about node 3 and share `_:b1` -/
+example :
+    let d : DS := ⟨[(.bn 3, .iri 1, .bn 4, .iri 0)], 10⟩
+    let ctx : LMap := [(.named 0, 3)]
+    let doc : Doc := [(.lab (.named 0), .iri 2, .lab (.named 1), none)]
+    WF d ∧ MapInv 0 ⟨d.fresh, ctx⟩ ∧ IntoOK d (.iri 0) ∧
+    (parseShared ⟨.remap, false, true⟩ d ctx [(.iri 0, doc), (.iri 5, doc)]).1.quads =
+      [(.bn 3, .iri 1, .bn 4, .iri 0), (.bn 3, .iri 2, .bn 10, .iri 0), (.bn 3, .iri 2, .bn 10, .iri 5)] ∧
+    (parseShared ⟨.remap, false, true⟩ d ctx [(.iri 0, doc), (.iri 5, doc)]).2 = [(.named 1, 10), (.named 0, 3)] := by
+  refine ⟨?_, ⟨Nat.zero_le _, ?_, ?_⟩, (fun b hb => by cases hb), by decide, by decide⟩
+  · intro b ⟨q, hq, hn⟩
+    simp only [List.mem_cons, List.not_mem_nil, or_false] at hq
+    subst hq
+    simp only [Quad.hasNode] at hn
+    rcases hn with hn | hn | hn | hn <;> cases hn <;> decide
+  · intro l b h
+    simp only [alookup] at h
+    split at h
+    · cases h; exact ⟨Nat.zero_le _, by decide⟩
+    · cases h
+  · intro l l' b h h'
+    simp only [alookup] at h h'
+    split at h <;> split at h'
+    · next e1 e2 => rw [← e1, ← e2]
+    · cases h'
+    · cases h
+    · cases h
+
+/-- round g: `EvOK` holds for a document with a label inside and outside a formula -/
+example : EvOK [.stmt (.lab (.named 0), .iri 1, .iri 2, none), .opn,
+                .stmt (.lab (.named 0), .iri 1, .iri 2, some (.lab (.anon 0))), .cls] := by
+  intro q hq
+  simp only [List.mem_cons, List.not_mem_nil, or_false, reduceCtorEq, false_or, Ev.stmt.injEq] at hq
+  rcases hq with rfl | rfl
+  · refine ⟨?_, ?_, ?_, ?_⟩
+    · intro l hl a b e; cases hl; cases e
+    · intro l hl; cases hl
+    · intro l hl; cases hl
+    · intro g hg; cases hg
+  · refine ⟨?_, ?_, ?_, ?_⟩
+    · intro l hl a b e; cases hl; cases e
+    · intro l hl; cases hl
+    · intro l hl; cases hl
+    · intro g hg l hl a b e; cases hg; cases hl; cases e
 
 end RV.C12
